@@ -407,6 +407,78 @@ class GeneIncorporate(Case):
         return [o(r[0]), o(r[1]), r[2], [obs_loc(x)[:2] for x in r[3]], list(r[4])]
 
 
+class HaplotypeMapping(Case):
+    """AnnotationCollection built with TWO haplotypes (variant collections): every haplotype whose span shares a
+    position with a gene gets its own entry in alternative_haplotype_mapping holding that gene with the haplotype
+    applied to the SOURCE gene - a haplotype is never applied to a copy produced for another haplotype, and a
+    haplotype that touches the gene is never missing.  One single-exon gene, one variant per haplotype (wholly inside
+    the exon or wholly outside it), parentless objects."""
+    props = ("C13", "C09")
+    summaries = (HOS,)
+    func = "gene.collections.AnnotationCollection._associate_intervals_with_variant_intervals"
+    module = "gene.collections"
+    shard_depth = 5
+    name = "AnnotationCollection.alternative_haplotype_mapping[one gene, two haplotypes]"
+    call = ("(lambda m: (vc1.guid in m, vc2.guid in m, [(g.gene_id, g.start, g.end) for g in m.get(vc1.guid, [])], "
+            "[(g.gene_id, g.start, g.end) for g in m.get(vc2.guid, [])], len(m)))"
+            "(AnnotationCollection(genes=[gene], variant_collections=[vc1, vc2]).alternative_haplotype_mapping)")
+    ensures = {
+        "a-haplotype-is-mapped-iff-it-touches-the-gene": lambda i, r: And(
+            _b(r[0], _touch(i, 0)), _b(r[1], _touch(i, 1)), r[4] == (1 if r[0] else 0) + (1 if r[1] else 0)),
+        "each-entry-is-the-source-gene-with-that-haplotype-applied": lambda i, r: And(*[
+            And(len(r[2 + k]) == 1, r[2 + k][0][0] == "g1", r[2 + k][0][1] == i.s,
+                r[2 + k][0][2] == i.e + i.d[k]) if r[k] else len(r[2 + k]) == 0 for k in range(2)]),
+    }
+
+    def inputs(self, S):
+        strand = strand_of(S, "strand")
+        s, e = S.int("s"), S.int("e")
+        S.assume(And(0 <= s, s < e))
+        tx = S.new(TRANSCRIPT, [s], [e], strand, transcript_id="t0")
+        gene = S.new("gene.gene.GeneInterval", [tx], gene_id="g1")
+        vcs, vs_, ve_, d = [], [], [], []
+        for k in range(2):
+            vs, ve = S.int(f"v{k}_start"), S.int(f"v{k}_end")
+            alt = S.symstr(f"v{k}_alt", "ACGTN")
+            # wholly inside the exon (not touching its ends) or wholly outside it
+            S.assume(And(0 <= vs, vs < ve, Or(And(s < vs, ve < e), ve <= s, vs >= e)))
+            v = S.new(VAR, vs, ve, alt, "variant")
+            vcs.append(S.new("gene.variants.VariantIntervalCollection", [v], variant_collection_id=f"hap{k}"))
+            vs_.append(vs)
+            ve_.append(ve)
+            d.append(slen(alt) - (ve - vs))
+        return NS(gene=gene, vc1=vcs[0], vc2=vcs[1], s=s, e=e, vs=vs_, ve=ve_, d=d,
+                  AnnotationCollection=S.cls("gene.collections.AnnotationCollection"))
+
+    def samples(self, rng):
+        s = rng.randint(2, 8)
+        e = s + rng.randint(4, 10)
+        d = dict(strand=rng.choice(["PLUS", "MINUS"]), s=s, e=e)
+        for k in range(2):
+            if rng.random() < 0.7:
+                vs = rng.randint(s + 1, e - 2)
+                ve = rng.randint(vs + 1, e - 1)
+            else:
+                vs = e + rng.randint(0, 3)
+                ve = vs + rng.randint(1, 2)
+            d.update({f"v{k}_start": vs, f"v{k}_end": ve,
+                      f"v{k}_alt": "".join(rng.choice("ACGT") for _ in range(rng.randint(0, 4)))})
+        return d
+
+    def observe(self, r):
+        from pyvc.check import default_observe as o
+        return [bool(r[0]), bool(r[1]), [[a, o(b), o(c)] for a, b, c in r[2]], [[a, o(b), o(c)] for a, b, c in r[3]], r[4]]
+
+
+def _touch(i, k):
+    return And(i.s < i.vs[k], i.ve[k] < i.e)  # (a variant outside the exon shares no position with the gene)
+
+
+def _b(flag, cond):
+    """the concrete flag of this path agrees with the condition"""
+    return cond if flag else Not(cond)
+
+
 class TranscriptIncorporate(Case):
     props = ("C13",)
     summaries = (HOS,)  # callee contract proved by c02_single.OverlapCore
@@ -483,7 +555,7 @@ def _placed_cds(i):
 CASES = [FeatureIncorporate(1), FeatureIncorporate(2), CdsIncorporate(1),
          CdsIncorporate(2, place="downstream of"), CdsIncorporate(2, place="upstream of", tier="thorough"),
          CdsIncorporate(2, tier="thorough"), TranscriptIncorporate(1), TranscriptIncorporate(2, tier="thorough"),
-         CdsIncorporateCollection(), GeneIncorporate()]
+         CdsIncorporateCollection(), GeneIncorporate(), HaplotypeMapping()]
 
 CANARIES = [
     dict(name="incorporate_variants: frames rebuilt from the first LISTED frame (F-C13-4)", props=("C13",),
